@@ -446,7 +446,7 @@ def selftest():
 def subchecks(tier, seed):
     quick = tier == "quick"
     return [
-        SubCheck("structure", body_structure, strategy=_structure_strategy(tier), examples=8000 if quick else 250000, cases=PINNED_STRUCTURE, shards=16),
+        SubCheck("structure", body_structure, strategy=_structure_strategy(tier), examples=8000 if quick else 150000, cases=PINNED_STRUCTURE, shards=16),
         SubCheck("presets", body_preset, cases=cases_presets("lebedev"), exhaustive=True, shards=32),
         SubCheck("presets-methods", body_preset, cases=cases_presets_methods(tier, seed), exhaustive=False, shards=32),
     ]
